@@ -581,10 +581,7 @@ theorem tbl_piano_hi : Gen.C13_PIANO_HI = 109 := by decide
 theorem tbl_idx_start : Gen.C13_IDX_START = 0 := by decide
 theorem tbl_idx_start_piano : Gen.C13_IDX_START_PIANO = 21 := by decide
 theorem tbl_drum : Gen.C13_DRUM_CHANNEL = 9 := by decide
-theorem tbl_dec_full : Gen.C13_DEC_ROWS_FULL = 128 := by decide
-theorem tbl_dec_piano : Gen.C13_DEC_ROWS_PIANO = 88 := by decide
-theorem tbl_dec_init_full : Gen.C13_DEC_INIT_FULL = 0 := by decide
-theorem tbl_dec_init_piano : Gen.C13_DEC_INIT_PIANO = 21 := by decide
+theorem tbl_dec_shapes : Gen.C13_DEC_SHAPES = [(88, 21), (128, 0)] := by decide
 theorem tbl_pc_rows : Gen.C13_PC_ROWS = 12 := by decide
 theorem tbl_pc_span : Gen.C13_PC_SPAN = 128 := by decide
 theorem tbl_pc_step : Gen.C13_PC_STEP = 12 := by decide
